@@ -82,12 +82,12 @@ Definition decode (r : dec_route) (t : ty) (x : tomlval) : result sval :=
   end.
 
 (* ---- hypotheses of the C13 statements (decidable predicates on trees / types) ---- *)
-(* no date-time and no table key spelling the private tunnel name: where the two recorded defects of
-   the toml::Value family (C13-tryfrom-datetime-table, C13-tryinto-datetime-string) and the in-band
-   signalling F14 (private-datetime-key) cannot show *)
+(* no table key spelling the private tunnel name: where the in-band signalling F14 (private-datetime-key)
+   cannot show.  (Date-times are allowed since the repairs of C13-tryfrom-datetime-table and
+   C13-tryinto-datetime-string.) *)
 Fixpoint tunnel_free (x : tomlval) : bool :=
   match x with
-  | VDatetime _ => false
+  | VDatetime _ => true
   | VArr xs => forallb tunnel_free xs
   | VTab es => forallb (fun kx => negb (bytes_eqb (fst kx) DT_FIELD) && tunnel_free (snd kx)) es
   | _ => true
